@@ -146,10 +146,11 @@ Fixpoint pad_index (i s w : list Z) : option (list Z) :=
 (* ------------------------------------------------------------------------------------------ *)
 (* take (index/take.hpp:17,56)                                                                *)
 Definition shape_take_none (indices : list Z) : list Z := [zlen indices].
+(* the entry of [indices] (an int) is used as / stored into a size_t: a negative entry wraps to 2^64 - |x| *)
 Definition take_none_index (s indices i : list Z) : list Z :=
-  compute_indices3 (znth indices (hd 0 i)) s (compute_strides s).
+  compute_indices3 (wrap 64 (znth indices (hd 0 i))) s (compute_strides s).
 Definition shape_take_axis (s indices : list Z) (a : Z) : list Z := map_at 0 a (fun _ => zlen indices) s.
-Definition take_axis_index (indices i : list Z) (a : Z) : list Z := map_at 0 a (fun x => znth indices x) i.
+Definition take_axis_index (indices i : list Z) (a : Z) : list Z := map_at 0 a (fun x => wrap 64 (znth indices x)) i.
 
 (* ------------------------------------------------------------------------------------------ *)
 (* compress (index/compress.hpp): nonzero(condition) then as take                             *)
@@ -523,3 +524,8 @@ Definition np_diagflat_index (i : list Z) (k : Z) : option Z :=
 Definition np_tril_keep (i : list Z) (k : Z) : bool := znth i (zlen i - 1) <=? znth i (zlen i - 2) + k.
 Definition np_triu_keep (i : list Z) (k : Z) : bool := znth i (zlen i - 1) >=? znth i (zlen i - 2) + k.
 Definition np_tri_source (s i : list Z) : list Z := match s with [_] => [znth i 1] | _ => i end.
+
+(* np.arange count: max(0, ceil((stop-start)/step)); np.linspace: [start] when num = 1 *)
+Definition np_arange_len (start stop p q : Z) : Z := Z.max 0 (ceil_div ((stop - start) * q) p).
+Definition np_linspace_elem (start stop num : Z) (endpoint : bool) (i : Z) : Z * Z :=
+  if num =? 1 then (start, 1) else let dv := if endpoint then num - 1 else num in (start * dv + i * (stop - start), dv).
